@@ -194,7 +194,24 @@ func VH_C15_Edits() {
 	b := []byte(base)
 	pos := vnondetLen("pos", 0, len(b))
 	var s []byte
-	switch vnondetLen("edit", 0, 4) {
+	edit := vnondetLen("edit", 0, 5)
+	if edit == 5 {
+		// one character replaced by a two-byte UTF-8 character (both bytes symbolic): never Base58.
+		// Only ValidateAddress is asked (it has its own Base58 arithmetic; go-bk's is an opaque model here).
+		vassume(pos < len(b))
+		u1, u2 := vnondetU8("utf8-lead"), vnondetU8("utf8-cont")
+		vassume(u1 >= 0xc2 && u1 <= 0xdf && u2 >= 0x80 && u2 <= 0xbf)
+		// the character whose code point has the replaced character as its low byte (the one a decoder that
+		// confuses runes and bytes would take for it); any other non-ASCII character fails the checksum as
+		// any wrong Base58 character does, which the single-byte substitutions already cover
+		vassume(byte((uint16(u1&0x1f)<<6)|uint16(u2&0x3f)) == b[pos])
+		s = append(append(append([]byte{}, b[:pos]...), u1, u2), b[pos+1:]...)
+		ok, _ := ValidateAddress(string(s))
+		vassert(!ok, "ValidateAddress rejects a non-ASCII character")
+		vreach("edit-invalid")
+		return
+	}
+	switch edit {
 	case 0: // unchanged
 		s = b
 	case 1: // substitute
